@@ -2,7 +2,11 @@
 
 Enumerated: every spec tree of hmc.specgen.enumerate_specs(depth) (quick: depth <= 1 plus the unary wrappers over the basis-built
 depth-1 trees ("1.5"), thorough: depth <= 2, both plus the depth-3 interaction families) x every value of the tree's derived domain (<= 24, see specgen) x endianness {<,>} x
-{non-pod, pod} x trailing bytes {none, 00, FF 01} (only "none" for values whose encoding must end the byte window).
+{non-pod, pod} x trailing bytes {none, 00, FF 01} (only "none" for values whose encoding must end the byte window);
+plus, for every value containing an order-insensitive mapping (Template / FlagSwitch / BitField dicts, Dataclass and
+BitfieldDataclass pod dicts), its key-order variants (specgen.order_variants: all permutations of a root mapping with <= 3
+keys, reversed otherwise, and the twin with every nested mapping reversed) x {<,>} x {non-pod, pod}: same bytes, same
+read-back.  DictAdapter / MultiDictAdapter / Collection order is part of the value and is never permuted.
 
 Clauses (site = root combinator of the *smallest* failing closed subtree + labels of its direct children):
   write-raises      writing an in-domain value raised
@@ -71,7 +75,7 @@ def eval_tree(desc, part: Optional[Part] = None) -> List[dict]:
     if size is not None and not isinstance(size, int):
         bad("calc-size-wrong", f"{_cls_name(spec)}.calc_size", f"calc_size() returned {size!r}")
         size = None
-    n_eval = 0
+    n_eval = n_alt = 0
     for vi, val in enumerate(vals):
         trailers = TRAILERS[:1] if val.eof else TRAILERS
         for ei, endian in enumerate(sg.ENDIANS):
@@ -110,6 +114,36 @@ def eval_tree(desc, part: Optional[Part] = None) -> List[dict]:
                                               f"at {r.tell()} with {len(r)} unread", trailing=tr, **ctxw)
                 if part is not None:
                     part.outcome((sg.label(desc), len(data), data[:8], pod))
+        # the same value with the keys of order-insensitive mappings inserted in another order (dict equality ignores
+        # insertion order, so these are the same domain value): identical bytes, identical read-back
+        for ai, (arich, apod) in enumerate(sg.order_variants(desc, val)):
+            n_alt += 1
+            for ei, endian in enumerate(sg.ENDIANS):
+                for pod in MODES:
+                    n_eval += 1
+                    v, canon = (apod, val.pod) if pod else (arich, val.rich)
+                    ctxw = dict(value=_short(v), value_index=vi, key_order_variant=ai, endian=endian, pod=pod)
+                    w = se.BufferWriter(endian)
+                    try:
+                        w.write(spec, v)
+                    except Exception as e:
+                        bad("write-raises", tsite, f"[keys re-ordered] write({_short(v)}) endian={endian} pod={pod} raised {e!r}", **ctxw)
+                        continue
+                    data = w.copy_buffer()
+                    if data != val.enc[ei]:
+                        bad("ref-bytes", tsite, f"[keys re-ordered] write({_short(v)}) endian={endian} pod={pod} gave {data[:48].hex()} (len {len(data)}); "
+                                               f"the same mapping in spec order encodes to {val.enc[ei][:48].hex()} (len {len(val.enc[ei])})", **ctxw)
+                    r = se.BufferReader(endian, data, pod=pod)
+                    try:
+                        got = r.read(spec)
+                        gn = sg.norm(got)
+                    except Exception as e:
+                        bad("read-raises", tsite, f"[keys re-ordered] read(write({_short(v)})) endian={endian} pod={pod} raised {e!r}", **ctxw)
+                        continue
+                    if gn != sg.norm(canon):
+                        bad("roundtrip", tsite, f"[keys re-ordered] endian={endian} pod={pod}: wrote {_short(v)} ({data[:32].hex()}), read back {_short(got)}", **ctxw)
+                    if r.tell() != len(data):
+                        bad("framing", tsite, f"[keys re-ordered] endian={endian} pod={pod}: wrote {len(data)} bytes for {_short(v)}, reader stopped at {r.tell()}", **ctxw)
     for pr in sg.probes(desc):
         for endian in sg.ENDIANS:
             n_eval += 1
@@ -125,6 +159,7 @@ def eval_tree(desc, part: Optional[Part] = None) -> List[dict]:
         part.count("evaluations", n_eval)
         part.count("trees")
         part.count("values", len(vals))
+        part.count("key_order_variants", n_alt)
         part.count("trees_" + sg.classify(desc).replace("-", "_"))
         if len(desc) > 1 and sg._children(desc):
             part.mark_nontrivial(sg.describe(desc))
@@ -185,7 +220,8 @@ def run(run: Run):
     run.rule = (f"every spec tree of specgen.enumerate_specs(depth={depth}) ({len(sg.LEAVES)} leaves; depth 1 = 13-18 unary wrappers x every leaf + 9-10 "
                 f"n-ary forms x {len(sg.BASIS)}^2 basis pairs; depth 2 = the same wrappers over every basis-built depth-1 tree + 5 n-ary forms pairing it "
                 f"with {len(sg.BASIS2)} leaves in both orders; + {len(sg.families())} depth-3 family trees) x derived domain (<= {sg.CAP} values, every member "
-                "value kept by a covering selection) x {<,>} x {non-pod, pod} x trailing {none, 00, FF01} (none only for window-consuming values). "
+                "value kept by a covering selection) x {<,>} x {non-pod, pod} x trailing {none, 00, FF01} (none only for window-consuming values); "
+                "+ key-order variants of every order-insensitive mapping value (all permutations of a root mapping with <= 3 keys, nested mappings reversed). "
                 "distinct_nontrivial = distinct composite trees (>= 1 combinator above a leaf) with a non-empty domain")
     run.assumptions += [
         "domain per specgen docstring: window-consuming members only in tail position (or followed by empty encodings), greedy-collection / "
